@@ -115,7 +115,11 @@ class DataFrameSchemaBackend(PandasSchemaBackend):
         )
 
         if error_handler.collected_errors:
-            if getattr(schema, "drop_invalid_rows", False):
+            # errors that are not attributable to rows (e.g. a wrong dtype or a
+            # missing column) cannot be resolved by dropping rows: raise them
+            if getattr(
+                schema, "drop_invalid_rows", False
+            ) and self.has_only_row_errors(error_handler):
                 check_obj = self.drop_invalid_rows(check_obj, error_handler)
                 return check_obj
             else:
